@@ -435,6 +435,67 @@ func p4Resize(r *Run, rep *core.Report, prop string, mm *core.MapModel) {
 			}
 		})
 	}
+	// the resize owner works on the table that is current once it owns the flag: the source of every copy and the
+	// length the new table is sized from come from an atomic load of the table pointer executed after the winning CAS
+	var cas ssa.Instruction
+	core.Instrs(f, func(in ssa.Instruction) {
+		if c, ok := in.(*ssa.Call); ok {
+			if op, addr, ok := core.AtomicOp(c); ok && op == "CAS" {
+				if a := core.Addr(addr); a.Owner == mm.Name && a.Field == mm.FlagF {
+					cas = in
+				}
+			}
+		}
+	})
+	if cas != nil {
+		srcOK := func(v ssa.Value, at ssa.Instruction, what string) {
+			roots := map[ssa.Value]string{}
+			tableFieldLoads(mm, v, roots, map[ssa.Value]bool{}, 0)
+			if len(roots) == 0 {
+				if _, isConst := core.StripConv(v).(*ssa.Const); isConst {
+					return
+				}
+				// lengths taken from the map header (minimum length) carry no table value
+				return
+			}
+			for root := range roots {
+				okv := false
+				why := root.Name() + " is not an atomic load of the table pointer"
+				if addr, isLoad := atomicLoadAddr(root); isLoad {
+					a := core.Addr(addr)
+					if a.Owner == mm.Name && a.Field == mm.TableF {
+						ld := core.StripConv(root).(ssa.Instruction)
+						if reaches(cas, ld, nil) && !reachAvoiding(f, core.Spec{}, cas)(ld) {
+							okv = true
+						} else {
+							why = "the table pointer was loaded before the resize flag was won"
+						}
+					}
+				} else if p, isP := root.(*ssa.Parameter); isP {
+					why = "the caller's table (parameter " + p.Name() + ") may have been replaced by another resize or Clear before this one won the flag"
+				}
+				rep.Check(okv, prop+".P4", fn(f)+" "+what, r.P.InstrPos(at), "taken from the table that is current after the resize flag was won", what+" uses a stale table: "+why+"; the resize would rebuild from a dead table and publish it, rolling the map back (completed writes lost, cleared entries resurrected)")
+			}
+		}
+		core.Instrs(f, func(in ssa.Instruction) {
+			c, ok := in.(*ssa.Call)
+			if !ok {
+				return
+			}
+			switch core.Callee(c) {
+			case mm.Copy:
+				for i, p := range mm.Copy.Params {
+					if isBucketType(r, elemOf(p.Type())) {
+						if ia, isIA := c.Call.Args[i].(*ssa.IndexAddr); isIA {
+							srcOK(ia.X, in, "copy source")
+						}
+					}
+				}
+			case mm.NewTable:
+				srcOK(c.Call.Args[0], in, "new table length")
+			}
+		})
+	}
 	// table pointer written only by resize and the constructor (fresh map object)
 	for _, g := range r.P.Funcs {
 		if g == f || r.M.MapOfFunc(g) != mm && !isCtorOf(mm, g) {
@@ -497,6 +558,27 @@ func p6Copy(r *Run, rep *core.Report, prop string, mm *core.MapModel) {
 		rep.Check(must && okRoot, prop+".P6", fn(f)+" copies under the source lock", r.P.InstrPos(in), "entries are moved while the source chain's bucket lock is held", "entries are copied to the new table without holding the source chain's bucket lock: a concurrent writer's update to this chain can be lost")
 	})
 	rep.MinCount(prop+".P6", "append sites in the copy routine", nApp, 1)
+	// every path through the copy takes the source lock: it is the barrier that waits for writers
+	// which validated before the resize began and are still modifying this chain
+	mb := &core.Machine[bool]{P: r.P, Fn: f, Spec: core.Spec{}}
+	barrier := true
+	var skipRet ssa.Instruction
+	mb.Step = func(ctx *core.Ctx[bool], s bool, in ssa.Instruction) []bool {
+		if ev := r.M.LockEventOf(in); ev != nil && ev.Acquire && ev.Class == "bucket" {
+			s = true
+		}
+		if _, ok := in.(*ssa.Return); ok && !s {
+			barrier = false
+			skipRet = in
+		}
+		return []bool{s}
+	}
+	mb.Run()
+	pos6 := r.P.Pos(f.Pos())
+	if skipRet != nil {
+		pos6 = r.P.InstrPos(skipRet)
+	}
+	rep.Check(barrier, prop+".P6", fn(f)+" lock barrier on every path", pos6, "every path through the copy acquires the source chain's lock", "a path through the bucket copy returns without ever taking the source chain's lock: a writer that validated before the resize and still holds that lock inserts into the abandoned table and its completed write is lost")
 	bad := 0
 	core.Instrs(f, func(in ssa.Instruction) {
 		var addr ssa.Value
